@@ -23,6 +23,7 @@ from . import absx, facts, ir
 class Adapter:
     """class-specific glue: how to observe the state and what it should imply"""
     observers = ()            # names of const accessors evaluated to form the observation
+    derived = {}              # further const accessors -> function of the observation giving the value they must yield
     empty_obs = None
 
     def expected_live(self, obs, alts):
@@ -69,9 +70,9 @@ class Explorer:
     def world(self):
         return absx.World(self.db)
 
-    def observe(self, w, root):
+    def observe(self, w, root, names=None):
         obs = []
-        for name in self.ad.observers:
+        for name in (self.ad.observers if names is None else names):
             cands = [f for f in self.fns if f['n'] == name and f.get('const') and 'body' in f and not f['params']] or \
                     [f for f in members_of_bases(self.db, self.recq) if f['n'] == name and f.get('const') and 'body' in f and not f['params']]
             if not cands:
@@ -178,6 +179,13 @@ class Explorer:
         ok = live == want
         self.record('I', fn, ok, '%s: after %s the object reports %s but live storage is %s (expected %s)' % (
             self.label, what, dict(zip(self.ad.observers, obs)), sorted('.'.join(p) for p in live), sorted('.'.join(p) for p in want)))
+        # derived accessors (conversion to bool, ...) must agree with the primary observation in every state
+        for name, expect in sorted(getattr(self.ad, 'derived', {}).items()):
+            got = self.observe(w, root, (name,))[0]
+            want_v = expect(obs)
+            good = isinstance(got, int) and bool(got) == bool(want_v)
+            self.record('I', fn, good, '%s: after %s the object reports %s but `%s` yields %s (expected %s)' % (
+                self.label, what, dict(zip(self.ad.observers, obs)), name, got, want_v))
         return obs
 
     def ordering(self, top_fn, w_holder):
@@ -378,3 +386,64 @@ def report(chk, ex, rule_prefix=''):
             continue
         seen.add((sig, why))
         chk.unanalysable(rule_prefix + 'L', ex.label + ' ' + sig, 'abstract execution not possible: ' + why)
+
+
+def _may_throw(db, owner, node, memo, depth=0):
+    """can the operation denoted by a call / ctor node throw?  External callees: their exception specification.  Library callees
+    with a body: transitively (a member that is not declared noexcept but only calls non-throwing operations does not throw)."""
+    from . import ir
+    cal = node.get('callee')
+    if not cal or cal.get('builtin'):
+        return None
+    if cal.get('nx') == 'yes':
+        return None
+    target = db.callee(owner, node)
+    if target is None or ('body' not in target and not target.get('inits')):
+        return (cal.get('q') or cal.get('n')) if cal.get('nx') == 'no' else None
+    key = id(target)
+    if key in memo:
+        return memo[key]
+    memo[key] = None          # recursion: assume quiet while exploring
+    if depth > 12:
+        return None
+    roots = ([target['body']] if 'body' in target else []) + [i.get('e') for i in target.get('inits', []) if i.get('e')]
+    for r in roots:
+        for y in ir.walk(r):
+            if y.get('k') in ('call', 'ctor'):
+                w = _may_throw(db, target, y, memo, depth + 1)
+                if w:
+                    memo[key] = w
+                    return w
+    return None
+
+
+def noexcept_rule(chk, db, rule, rects, minimum=1, text=None):
+    """NX: a member written `noexcept` may only call operations that cannot throw.  Decided on the resolved callees of every
+    instantiation: the probes instantiate the value types with element types whose copy / move operations may throw, so a
+    `noexcept` on a member that constructs, assigns or visits an element shows up as a call of a potentially-throwing function
+    (an exception there is std::terminate instead of the documented behaviour).  Destructors are noexcept by the language rule
+    and are not covered; a callee whose exception specification the compiler has not evaluated counts as unknown (no alarm)."""
+    from . import facts, ir
+    chk.rule(rule, text or 'members declared noexcept call nothing that may throw', minimum=minimum)
+    seen = {}
+    memo = {}
+    for f in db.fns:
+        if not f.get('noexcept') or not any((f.get('rect') or '') == r or (f.get('rect') or '').startswith(r + '<') for r in rects):
+            continue
+        roots = ([f['body']] if 'body' in f else []) + [i.get('e') for i in f.get('inits', []) if i.get('e')]
+        throwing = []
+        for r in roots:
+            for y in ir.walk(r):
+                if y.get('k') in ('call', 'ctor'):
+                    w = _may_throw(db, f, y, memo)
+                    if w:
+                        throwing.append((w, y.get('loc', {}).get('l')))
+        key = (f['file'], f['pat']['l'], f['n'])
+        prev = seen.get(key)
+        if prev is None or (throwing and not prev[1]):
+            seen[key] = (f, throwing)
+    for (file, line, n), (f, throwing) in sorted(seen.items()):
+        chk.decide(not throwing, rule, facts.site(f), '%s is declared noexcept %s' % (
+            ir.fn_label(f), 'and calls only non-throwing operations' if not throwing else
+            'but calls %s (line %s), which may throw: the exception would terminate the program' % (throwing[0][0][:80], throwing[0][1])),
+            function=ir.fn_label(f))
